@@ -2043,8 +2043,13 @@ func (g *c02Gen) codeRequest(defects []string) c02Op {
 	}
 	if has("wrong-client_id") {
 		op.ClientID = c02Ptr("https://client.example/oauth2/mallory")
-		if g.rng.Intn(2) == 0 {
+		switch g.rng.Intn(3) {
+		case 0:
 			op.ClientID = c02Ptr(g.nearMiss(client))
+		case 1:
+			// another client whose id differs from the authorised one only in letter case / Unicode case folding
+			v := c02CaseVariants(client)
+			op.ClientID = c02Ptr(v[g.rng.Intn(len(v))])
 		}
 	}
 	if has("unknown-subject") {
@@ -2174,6 +2179,51 @@ func (g *c02Gen) otherHolder(holder string) string {
 		}
 	}
 	return l[g.rng.Intn(len(l))]
+}
+
+// c02CaseVariants: strings that differ from s, but only in letter case (whole string, one path letter, host, scheme) or by
+// Unicode simple case folding (long s, Kelvin sign) - equal under strings.EqualFold / ToLower comparisons, different clients
+func c02CaseVariants(s string) []string {
+	var out []string
+	add := func(v string) {
+		if v != s {
+			out = append(out, v)
+		}
+	}
+	add(strings.ToUpper(s))
+	add(strings.ToLower(s))
+	if n := len(s); n > 1 {
+		// the last letter of the path
+		for i := n - 1; i >= 0; i-- {
+			c := s[i]
+			if c >= 'a' && c <= 'z' {
+				add(s[:i] + string(c-32) + s[i+1:])
+				break
+			}
+			if c >= 'A' && c <= 'Z' {
+				add(s[:i] + string(c+32) + s[i+1:])
+				break
+			}
+		}
+	}
+	if i := strings.Index(s, "://"); i > 0 {
+		add(strings.ToUpper(s[:i]) + s[i:])
+		rest := s[i+3:]
+		host, path, _ := strings.Cut(rest, "/")
+		if len(host) > 0 {
+			add(s[:i+3] + strings.ToUpper(host[:1]) + host[1:] + "/" + path)
+		}
+	}
+	if i := strings.IndexByte(s, 's'); i >= 0 {
+		add(s[:i] + "\u017f" + s[i+1:]) // LATIN SMALL LETTER LONG S folds to s
+	}
+	if i := strings.IndexByte(s, 'k'); i >= 0 {
+		add(s[:i] + "\u212a" + s[i+1:]) // KELVIN SIGN folds to k
+	}
+	if len(out) == 0 {
+		out = append(out, s+"X")
+	}
+	return out
 }
 
 // nearMiss returns a string that is not `s` but close to it: extended, a proper prefix, other case, padded
@@ -2713,6 +2763,51 @@ func c02Targeted(t *testing.T, out *c02Out, seed int64) {
 				ar := g.authResponse(sess, nil, w.nowMs())
 				out.emit(&ar, w.exec(&ar))
 				redeem(sess.State)
+			}
+		}
+		// (h) the token request of ANOTHER client whose id differs from the authorised client's only in letter case (or
+		//     Unicode case folding), with the right code and PKCE verifier; every token that comes back is introspected
+		{
+			_, probe := g.authRequest(nil)
+			nv := len(c02CaseVariants(probe.Spec.ClientID))
+			for k := 0; k < nv; k++ {
+				req, sess := g.authRequest(nil)
+				line := w.exec(&req)
+				out.emit(&req, line)
+				if !strings.HasPrefix(line, "302 ") {
+					continue
+				}
+				f := strings.Fields(line)
+				sess.State, sess.Nonces = f[1][len("state="):], []string{f[2][len("nonce="):]}
+				g.sessions = append(g.sessions, sess)
+				code := ""
+				for round := 0; round < 3 && code == ""; round++ {
+					ar := g.authResponse(sess, nil, w.nowMs())
+					al := w.exec(&ar)
+					out.emit(&ar, al)
+					if strings.HasPrefix(al, "200 code=") {
+						code = strings.Fields(al)[1][len("code="):]
+					} else if strings.HasPrefix(al, "200 next=") {
+						sess.Nonces = append(sess.Nonces, strings.Fields(al)[2][len("nonce="):])
+					} else {
+						break
+					}
+				}
+				if code == "" {
+					continue
+				}
+				variants := c02CaseVariants(sess.Spec.ClientID)
+				v, c := sess.Verifier, variants[k%len(variants)]
+				op := c02Op{Op: "code", Subject: sess.Spec.OwnSubject, Code: &code, Verifier: &v, ClientID: &c, DPoP: &c02DPoP{Kind: "absent"},
+					Sha: []c02Sha{{In: v, Out: c02S256(v)}}, Defects: []string{"wrong-client_id", "client_id-case-variant"}, HTTP: k%3 == 2}
+				cl := w.exec(&op)
+				out.emit(&op, cl)
+				if strings.HasPrefix(cl, "200 token=") {
+					for _, ext := range []bool{false, true} {
+						in := c02Op{Op: "introspect", Token: strings.Fields(cl)[1][len("token="):], Extended: ext}
+						out.emit(&in, w.exec(&in))
+					}
+				}
 			}
 		}
 		w.ctrl.Finish()
